@@ -8,7 +8,7 @@
 From Coq Require Import List NArith ZArith Bool.
 From WV Require Import Lib.PyBytes Lib.Regex Gen.GenRegex Model.Receiver Model.UrlSplit Model.Parser Model.ChanSeq.
 From WV Require Import Spec.Ref9112 Proof.C01Lib Proof.C01Framing Proof.C01Head Proof.C01Body Proof.C01Close
-  Proof.C01Refuse Proof.C01Boundary Proof.C01ReqLine Proof.C01Observe.
+  Proof.C01Refuse Proof.C01Boundary Proof.C01ReqLine Proof.C01Block Proof.C01ParseHeader Proof.C01Observe.
 Import ListNotations.
 Local Open Scope N_scope.
 
@@ -232,6 +232,41 @@ Theorem C01_T4_head_boundary : forall s,
   end.
 Proof. exact head_boundary. Qed.
 Print Assumptions C01_T4_head_boundary.
+
+Theorem C01_T4_head_lines : forall s lines rest n,
+  read_head s [] [] 0 = Some (lines, rest, n) ->
+  s = (block_of lines ++ CRLF) ++ rest /\ forallb crlf_free lines = true.
+Proof. exact read_head_lines. Qed.
+Print Assumptions C01_T4_head_lines.
+
+(* ---- T1 + T3 over the bytes of a head ------------------------------------------------ *)
+
+Theorem C01_T13_parse_header : forall a rl flines,
+  bytes_ok rl -> has_crlf_byte rl = false -> rstrip_by is_bytes_ws rl = rl ->
+  Forall bytes_ok flines -> Forall (fun l => l <> []) flines -> forallb crlf_free flines = true ->
+  let '(p', st) := parse_header a parser_init (head_block rl flines) in
+  match ref_head rl flines with
+  | None => exists e, st = PSError e /\ perr_code e = 400
+  | Some ((m, t, v), fs) =>
+    match split_uri t with
+    | SBadURI => st = PSError EBadURI
+    | SOk _ _ _ _ _ =>
+      command p' = m /\ request_uri p' = t /\ version p' = v /\
+      match framing_of dev_te_ws v (combined fs) with
+      | FrRefuse code => exists e, st = PSError e /\ perr_code e = code
+      | FrChunked =>
+          st = PSOk /\ chunked p' = true /\ body p' = Some (BChunked chunked_init)
+          /\ headers p' = hpop (hpop (combined fs) s_TRANSFER_ENCODING) s_CONTENT_LENGTH
+          /\ (forall c, hget (combined fs) s_CONTENT_LENGTH = Some c -> connection_close p' = true)
+      | FrLength n =>
+          st = PSOk /\ chunked p' = false /\ body p' = Some (BFixed (fixed_init n)) /\ content_length p' = n
+      | FrNone => st = PSOk /\ chunked p' = false /\ body p' = None
+      end
+    | _ => True
+    end
+  end.
+Proof. exact parse_header_equiv. Qed.
+Print Assumptions C01_T13_parse_header.
 
 (* ---- the goal statement ---------------------------------------------------------- *)
 
